@@ -1,5 +1,5 @@
 """C20 - PTB and Japanese-bank text written by depccg reads back to the same tree."""
-import os, re, shutil, signal, sys, tempfile
+import locale, os, re, shutil, signal, sys, tempfile
 import gen
 from c20_ser import lit, gcat, gopt, gtree, gtoken, gtokens, gbool, PREAMBLE_T
 import depccg.lang
@@ -23,10 +23,11 @@ Definition RP (tb : guess_table) (l : text) (e : option tree) : bool := otree_eq
 Definition RJ (l : text) (e : option (tree * list token)) : bool := ojares_eqb (P_C20.read_ja l) e.
 Definition CP (tb : guess_table) (t r : tree) : bool := tree_eqb (canon_ptb (guess_of tb) t) r.
 Definition CJ (t r : tree) (ts : list token) : bool := tree_eqb (P_C20.canon_ja t) r && tokens_eqb (P_C20.tokens_ja t) ts.
-(* one printed tree: printer string, reader result, canonical form (each large term is written once) *)
-Definition P3 (tb : guess_table) (t : tree) (l : text) (r : tree) : bool := PP t (Some l) && RP tb l (Some r) && CP tb t r.
+(* one printed tree inside the oracle's domain: it satisfies the hypothesis of the theorems; printer string, reader result,
+   canonical form (each large term is written once) *)
+Definition P3 (tb : guess_table) (t : tree) (l : text) (r : tree) : bool := P_C20.wf_ptbb t && PP t (Some l) && RP tb l (Some r) && CP tb t r.
 Definition J5 (t : tree) (l : text) (r : tree) (ts : list token) (a1 a2 : text) : bool :=
-  PJ t (Some l) && RJ l (Some (r, ts)) && CJ t r ts && RJ a1 (Some (r, ts)) && RJ a2 (Some (r, ts)).
+  P_C20.wf_jab t && PJ t (Some l) && RJ l (Some (r, ts)) && CJ t r ts && RJ a1 (Some (r, ts)) && RJ a2 (Some (r, ts)).
 '''
 
 # the one symbol grammar/ja.py can emit (_unary_rule_symbol, for a unary rule whose argument is neither mod=adn nor mod=adv) that the
@@ -112,7 +113,20 @@ def rand_printable(rng, n):
     return ''.join(out)
 
 
+ENC = locale.getpreferredencoding(False)      # read_ptb / read_ccgbank open their file with the platform default encoding
+
+
+def encodable(w):
+    try:
+        w.encode(ENC)
+        return True
+    except UnicodeError:
+        return False
+
+
 def in_domain_word(w, fmt):
+    if not encodable(w):
+        return False                                # cannot be written to a file the readers can open on this platform
     if not w or not all(ch.isprintable() and not ch.isspace() for ch in w) or '\\' in w:
         return False
     if fmt == 'ptb':
@@ -146,6 +160,21 @@ def sanitize(rng, t, fmt):
             if k != 'word' and not in_domain_word(tok[k], fmt):
                 tok[k] = rand_word(rng, fmt)
     return t
+
+
+def tree_json(t):
+    if t.is_leaf:
+        return ['L', str(t.cat), dict(t.token)]
+    return ['N', str(t.cat), t.op_string, t.op_symbol, bool(t.head_is_left)] + [tree_json(c) for c in t.children]
+
+
+def tree_of_json(j):
+    if j[0] == 'L':
+        return Tree.make_terminal(Token(**j[2]), Category.parse(j[1]))
+    kids = [tree_of_json(x) for x in j[5:]]
+    if len(kids) == 1:
+        return Tree.make_unary(Category.parse(j[1]), kids[0], j[2], j[3])
+    return Tree.make_binary(Category.parse(j[1]), kids[0], kids[1], j[2], j[3], j[4])
 
 
 def ja_symbols_ok(t):
@@ -270,7 +299,7 @@ def run(ctx):
         """the public reader on a one-line file: ('ok', [ReaderResult...]) | ('err', name)"""
         counter[0] += 1
         fn = os.path.join(tmp, f'l{counter[0] % 64}.txt')
-        with open(fn, 'w', encoding='utf-8') as f:
+        with open(fn, 'w', encoding=ENC, errors='replace') as f:
             f.write(text + '\n')
         return guarded(lambda: list(read(fn)))
 
@@ -312,7 +341,7 @@ def run(ctx):
             t = gen.rand_tree(rng, 'en', nleaves=n, cats=cats)
         return sanitize(rng, t, 'ptb')
 
-    n_ptb = 260 if q else 4000
+    n_ptb = 260 if q else 2500
     for i in range(n_ptb):
         t = ptb_tree(i)
         line = ptb_of(t)
@@ -329,20 +358,20 @@ def run(ctx):
             back = res[0].tree
             if res[0].tokens != back.tokens:
                 ctx.count('ptb:token_list_differs_from_tree_tokens')
-            add(f'P3 {guess_table([back, t])} {gtree(t)} {lit(line)} {gtree(back)}', ('ptb_of + read_ptb + canon_ptb', line))
+            add(f'P3 {guess_table([back, t])} {gtree(t)} {lit(line)} {gtree(back)}', ('wf_ptb + ptb_of + read_ptb + canon_ptb', line))
         else:
             back = None
             add(f'PP {gtree(t)} (Some {lit(line)})', ('ptb_of', line))
             add(f'RP {guess_table([t])} {lit(line)} None', ('read_ptb', 'printed-unreadable', line, st, str(res)[:80]))
         # -- oracle (A): the line reads back to the same categories, shape and words
         if back is None:
-            ctx.fail('ptb_unreadable', f'read_ptb fails on the line ptb_of printed: {line!r} ({st}: {str(res)[:100]})', {'format': 'ptb', 'line': line})
+            ctx.fail('ptb_unreadable', f'read_ptb fails on the line ptb_of printed: {line!r} ({st}: {str(res)[:100]})', {'format': 'ptb', 'line': line, 'tree': tree_json(t)})
         else:
             d = same_tree(t, back, lambda w: w, symbols=False)
             if d is None and [tk.get('word') for tk in res[0].tokens] != words:
                 d = f'token list {[tk.get("word") for tk in res[0].tokens]!r} is not the word list {words!r}'
             if d:
-                ctx.fail('ptb_roundtrip', f'read_ptb(ptb_of(t)) differs from t: {d}; line {line!r}', {'format': 'ptb', 'line': line})
+                ctx.fail('ptb_roundtrip', f'read_ptb(ptb_of(t)) differs from t: {d}; line {line!r}', {'format': 'ptb', 'line': line, 'tree': tree_json(t)})
         # -- oracle (B): every truncated line is rejected with an error
         cuts = set(range(len(line))) if (not q or i % 8 == 0) else set(rng.sample(range(len(line)), min(len(line), 12)))
         cuts |= {k for k, ch in enumerate(line) if ch == ' '} | {k + 1 for k, ch in enumerate(line) if ch == ' '} | {len(line) - 1, len(line) - 2}
@@ -351,12 +380,12 @@ def run(ctx):
             st1, r1 = guarded(en_reader._parse_ptb, p)
             ctx.count('ptb:truncated_lines')
             if st1 == 'ok':
-                ctx.fail('ptb_truncated_accepted', f'_parse_ptb accepted the truncated line {p!r} (a proper prefix of {line!r})', {'format': 'ptb', 'line': line, 'cut': k})
+                ctx.fail('ptb_truncated_accepted', f'_parse_ptb accepted the truncated line {p!r} (a proper prefix of {line!r})', {'format': 'ptb', 'line': line, 'cut': k, 'tree': tree_json(t)})
             if k % 7 == 0 or k >= len(line) - 2:
                 st2, r2 = via_file(en_reader.read_ptb, p)
                 if st2 == 'ok' and r2:
-                    ctx.fail('ptb_truncated_accepted', f'read_ptb yielded a tree for the truncated line {p!r} (a proper prefix of {line!r})', {'format': 'ptb', 'line': line, 'cut': k, 'file': True})
-            if rng.random() < (0.04 if q else 0.02):
+                    ctx.fail('ptb_truncated_accepted', f'read_ptb yielded a tree for the truncated line {p!r} (a proper prefix of {line!r})', {'format': 'ptb', 'line': line, 'cut': k, 'file': True, 'tree': tree_json(t)})
+            if rng.random() < (0.04 if q else 0.005):
                 ptb_reader_case(p, 'truncated', t)
         if i < 3:
             ctx.sample({'ptb_line': line, 'words': words})
@@ -369,7 +398,7 @@ def run(ctx):
         add(f'PP {gtree(t)} {gopt(r if st == "ok" else None, lit)}', ('ptb_of', 'no-word', st))
 
     # malformed stream: model and implementation agree on ok(tree) / error
-    for i in range(250 if q else 5000):
+    for i in range(250 if q else 4000):
         if rng.random() < 0.6:
             t = sanitize(rng, gen.rand_tree(rng, 'en', nleaves=rng.randint(1, 3), full_tokens=False, cats=en_pool[:40]), 'ptb')
             s = ptb_of(t)
@@ -414,7 +443,7 @@ def run(ctx):
             ctx.count(f'ja:{kind}:{st}' + (f':{r}' if st == 'err' else ''))
             return st, r
 
-        n_ja = 260 if q else 4000
+        n_ja = 260 if q else 2500
         made = 0
         while made < n_ja:
             n = rng.randint(1, 4 if q else 7)
@@ -451,13 +480,13 @@ def run(ctx):
                     if d is None and [tk.get('surf') for tk in toks] != words:
                         d = f'token list {[tk.get("surf") for tk in toks]!r} is not the word list {words!r}'
                     if d:
-                        ctx.fail('ja_roundtrip', f'read_ccgbank on the {kind} line of t differs from t: {d}; line {text!r}', {'format': 'ja', 'line': text, 'kind': kind})
+                        ctx.fail('ja_roundtrip', f'read_ccgbank on the {kind} line of t differs from t: {d}; line {text!r}', {'format': 'ja', 'line': text, 'kind': kind, 'tree': tree_json(t)})
                 else:
                     outcomes.append((kind, text, None, None))
-                    ctx.fail('ja_unreadable', f'read_ccgbank fails on the {kind} bank line {text!r} ({st}: {str(res)[:100]})', {'format': 'ja', 'line': text, 'kind': kind})
+                    ctx.fail('ja_unreadable', f'read_ccgbank fails on the {kind} bank line {text!r} ({st}: {str(res)[:100]})', {'format': 'ja', 'line': text, 'kind': kind, 'tree': tree_json(t)})
             if all(o[2] is not None for o in outcomes) and len({(o[2], o[3]) for o in outcomes}) == 1:
                 add(f'J5 {gtree(t)} {lit(line)} {outcomes[0][2]} {outcomes[0][3]} {lit(outcomes[1][1])} {lit(outcomes[2][1])}',
-                    ('ja_of + read_ccgbank (printed, annotated, annotated-anywhere) + canon_ja', line, outcomes[1][1], outcomes[2][1]))
+                    ('wf_ja + ja_of + read_ccgbank (printed, annotated, annotated-anywhere) + canon_ja', line, outcomes[1][1], outcomes[2][1]))
             else:
                 add(f'PJ {gtree(t)} (Some {lit(line)})', ('ja_of', line))
                 for kind, text, gt, gk in outcomes:
@@ -474,7 +503,7 @@ def run(ctx):
             add(f'PJ {gtree(t)} {gopt(r if st == "ok" else None, lit)}', ('ja_of', 'no-word', st))
 
         # malformed stream (error-vs-ok agreement; a non-terminating reader counts as an error)
-        for i in range(250 if q else 5000):
+        for i in range(250 if q else 4000):
             if rng.random() < 0.65:
                 t = sanitize(rng, gen.rand_tree(rng, 'ja', nleaves=rng.randint(1, 3), full_tokens=rng.random() < 0.5, cats=ja_pool[:30]), 'ja')
                 s = bank_line(t, rng, True) if rng.random() < 0.3 else ja_of(t)
@@ -527,3 +556,40 @@ def all_nodes(t):
         for c in t.children:
             out += all_nodes(c)
     return out
+
+
+def replay(data):
+    """./check C20 --replay f : re-execute the recorded failures on the implementation"""
+    still = 0
+    for f in data.get('failures', []):
+        d = f.get('data', {})
+        fmt, line = d.get('format'), d.get('line')
+        print(f"[{f.get('kind')}] {f.get('desc', '')[:300]}")
+        if fmt == 'ptb':
+            set_lang('en')
+            if 'cut' in d:
+                st, r = guarded(en_reader._parse_ptb, line[:d['cut']])
+                print(f"  _parse_ptb({line[:d['cut']]!r}) -> {st} {r if st == 'err' else '(a tree)'}")
+                still += st == 'ok'
+            elif 'tree' in d:
+                t = tree_of_json(d['tree'])
+                st, r = guarded(lambda: en_reader._parse_ptb(ptb_of(t)))
+                diff = same_tree(t, r[0], lambda w: w, symbols=False) if st == 'ok' else f'error {r}'
+                print(f"  ptb_of(t) = {ptb_of(t)!r}\n  read back: {diff or 'same categories, shape, words'}")
+                still += diff is not None
+        elif fmt == 'ja':
+            set_lang('ja')
+            try:
+                st, r = guarded(lambda: ja_reader._JaCCGLineReader(line).parse())
+                if 'tree' in d and st == 'ok':
+                    diff = same_tree(tree_of_json(d['tree']), r[0], normalize, symbols=True)
+                else:
+                    diff = f'error {r}' if st == 'err' else None
+                print(f"  line {line!r}\n  read: {diff or 'same categories, shape, words, symbols'}")
+                still += diff is not None
+            finally:
+                set_lang('en')
+    for b in data.get('broken_obligations', []):
+        print('broken obligation:', (b.get('name') if isinstance(b, dict) else b[0]))
+    print(f'{still} recorded failure(s) still reproduce')
+    return 1 if still or data.get('broken_obligations') else 0
